@@ -384,7 +384,7 @@ def _chunk(task):
 
 TIERS = {
     "quick": {"chunks": 128, "per_chunk": 72, "sizes": [(3, 3), (3, 5), (4, 5)], "shipped": False},
-    "thorough": {"chunks": 256, "per_chunk": 300, "sizes": [(3, 3), (3, 5), (4, 5), (5, 7), (6, 8)], "shipped": True},
+    "thorough": {"chunks": 256, "per_chunk": 120, "sizes": [(3, 3), (3, 5), (4, 5), (5, 7), (6, 8)], "shipped": True},
 }
 
 
